@@ -15,8 +15,8 @@ TABLE = {
                         "source.replace_leaves(m) abstracted as the function replace_leaves(source, m) the per-class obligations define"],
     },
     "C08": {
-        "mods": ["contracts.glue"], "keys": ["PandasModel._select_columns_step", "PandasModel._rename_columns_step", "PolarsModel._table_step", "PandasModel._table_step", "SQLModel.select_rows_to_near_sql"],
-        "explanation": ("hybrid: PROVED (pyvc) -- SQLModel.select_rows_to_near_sql selects exactly the requested columns (all of the step's columns by default), each passed through unchanged, and filters by the node's own expression (suffix WHERE indent+sql(expr)); the column-shaping glue hands the frame library exactly the declared columns: Pandas _table_step and Polars _table_step ALWAYS narrow and order the "
+        "mods": ["contracts.glue"], "keys": ["PandasModel._select_columns_step", "PandasModel._rename_columns_step", "PolarsModel._table_step", "PandasModel._table_step", "SQLModel.select_rows_to_near_sql", "SQLModel.rename_to_near_sql", "SQLModel.map_columns_to_near_sql"],
+        "explanation": ("hybrid: PROVED (pyvc) -- SQLModel.select_rows_to_near_sql selects exactly the requested columns (all of the step's columns by default), each passed through unchanged, and filters by the node's own expression (suffix WHERE indent+sql(expr)); rename_to_near_sql / map_columns_to_near_sql select every renamed column as new = quoted old, pass exactly the requested untouched source columns through and drop the deleted ones; the column-shaping glue hands the frame library exactly the declared columns: Pandas _table_step and Polars _table_step ALWAYS narrow and order the "
                         "input to op.column_names (eager or lazy, extra or permuted input columns), _select_columns_step selects column_selection in that order, _rename_columns_step renames with the "
                         "node's mapping; BOUNDED -- declared columns = returned columns at every node of every enumerated pipeline on Pandas, Polars and SQLite (extend / project / join / convert_records "
                         "steps and all of the SQL generation are not under contract)"),
@@ -24,7 +24,8 @@ TABLE = {
     },
     "C09": {
         "mods": ["contracts.glue"], "keys": ["PandasModel._select_rows_step", "SQLModel.project_to_near_sql"],
-        "explanation": ("hybrid: PROVED (pyvc) -- SQLModel.project_to_near_sql (the GROUP BY text of every SQL dialect): the GROUP BY clause names ALL group keys of the node, quoted and in order, "
+        "groups_extra": [(["contracts.c06_extend"], ["ViewRepresentation.extend_parsed_:merge-decision[partition_by=1]", "ViewRepresentation.extend_parsed_:merge-decision[partition_by=list]"])],
+        "explanation": ("hybrid: PROVED (pyvc) -- the builder merges a windowed extend into the previous extend only when both have the same partition (partition_by=1 only with 'no partition columns'), order, reverse and windowed-ness, so every row's value is computed over the partition its own step declares (region contract on extend_parsed_, shared with C06); SQLModel.project_to_near_sql (the GROUP BY text of every SQL dialect): the GROUP BY clause names ALL group keys of the node, quoted and in order, "
                         "independently of the columns later steps still use, every group key is a selected term, and there is no GROUP BY exactly when the node has no group keys; Pandas _select_rows_step returns clean_copy(rows selected by the node's expression) i.e. a frame with a fresh default index (a gapped index after a "
                         "filter is what misaligns a following windowed extend); BOUNDED -- row counts of project / windowed extend against distinct key tuples of the materialised input on Pandas, "
                         "Polars, SQLite (the Pandas / Polars grouping code -- groupby / over -- and the windowed-extend SQL are not under contract)"),
@@ -104,10 +105,11 @@ TABLE = {
         "assumptions": ["ShiftPipeAction.__init__ does nothing; frames and control tables are opaque values with a row count"],
     },
     "C27": {
-        "mods": ["contracts.glue"], "keys": ["SQLModel.extend_to_near_sql:window-clause"],
-        "explanation": ("hybrid: PROVED (pyvc, region contract) -- the window clause every SQL dialect gets from SQLModel.extend_to_near_sql: no OVER clause exactly for a row-wise extend; "
+        "mods": ["contracts.glue"], "keys": ["SQLModel.extend_to_near_sql:window-clause", "SQLModel.extend_to_near_sql:term-assembly"],
+        "groups_extra": [(["contracts.c06_extend"], ["ViewRepresentation.extend_parsed_:merge-decision[partition_by=1]", "ViewRepresentation.extend_parsed_:merge-decision[partition_by=list]"])],
+        "explanation": ("hybrid: PROVED (pyvc, region contracts) -- the builder merges two consecutive extends only when partition, order_by (as a list, priority included), reverse and windowed-ness coincide (extend_parsed_ merge decision, shared with C06); the window clause every SQL dialect gets from SQLModel.extend_to_near_sql: no OVER clause exactly for a row-wise extend; "
                         "PARTITION BY lists ALL partition columns, quoted, in order; ORDER BY lists ALL order columns in the declared order with ' DESC' exactly on the reversed ones; the clause text is "
-                        "' OVER ( ' [PARTITION BY ...] [ORDER BY ...] ' ) ' and the declared dependencies are exactly partition + order columns. The verified text is the statement range "
+                        "' OVER ( ' [PARTITION BY ...] [ORDER BY ...] ' ) ' and the declared dependencies are exactly partition + order columns; every computed column's SQL term is sql(expression) followed by that clause and its declared dependencies are the columns it reads plus ALL window columns (second region, loop invariant) -- which is what stops the SQL-level extend merge from folding a windowed extend into an extend that redefines one of its window columns. The verified text is the statement range "
                         "`window_term = \"\"` .. `terms = OrderedDict()` of the real function, re-extracted on every run; the rest of the function (sub-query, term assembly, merge into the sub-query) is dropped. "
                         "BOUNDED -- every window function on Pandas, Polars and SQLite against a reference implementation over all small tables with total orders, and two consecutive extends with permuted order priority "
                         "(the Pandas / Polars window code and the per-function SQL are not under contract)"),
